@@ -734,11 +734,24 @@ def gen_dup_seeds(rng, ms, plural, full):
         if not rows:
             continue
         picks = rng.sample(range(len(rows)), min(len(rows), 3 if full else 1))
+        combos = []
         for n_, j in enumerate(picks):
+            orig_side = dict(map(tuple, rows[j][1])).get("inLibrary")
+            sides = [orig_side, None if orig_side else other_lib] if full else [[orig_side, None if orig_side else other_lib][rng.randrange(2)]]
+            combos += [(n_, j, side) for side in sides]
+        if sec == "unitClasses":
+            # always: a full redeclaration (inLibrary AND further attributes) of a class that has attributes of its own —
+            # the near miss of the loader's placeholder form (inLibrary as the ONLY attribute), which is no duplicate
+            rich = [j for j, r in enumerate(rows) if [a for a in r[1] if a[0] != "inLibrary"]]
+            if rich:
+                j = rng.choice(rich)
+                side = dict(map(tuple, rows[j][1])).get("inLibrary") or other_lib
+                if (j, side) not in [(c[1], c[2]) for c in combos]:
+                    combos.append((len(combos), j, side))
+        for n_, j, side in combos:
             name, attrs, _d, owner, _pl = rows[j]
             orig_side = dict(map(tuple, attrs)).get("inLibrary")
-            sides = [orig_side, None if orig_side else other_lib] if full else [[orig_side, None if orig_side else other_lib][rng.randrange(2)]]
-            for side in sides:
+            if True:
                 new_attrs = with_side(attrs, side)
                 if sec == "unitClasses" and [a[0] for a in new_attrs] == ["inLibrary"]:
                     # a unit class that repeats an existing name and carries inLibrary as its ONLY attribute is the
